@@ -124,6 +124,10 @@ pub fn check(v: &View, vd: &mut Verdict) {
                 if matches!(rop, RegOp::Register | RegOp::Replace | RegOp::Unregister) {
                     break;
                 }
+                // a lookup that was still in flight when T died may have respawned the service
+                if matches!(rop, RegOp::FromRegistry | RegOp::Setup) && o.end_or_max() > d {
+                    break;
+                }
                 continue;
             }
             vd.class("registry_op_after_death");
